@@ -2,6 +2,7 @@ package rules
 
 import (
 	"fmt"
+	"go/token"
 	"go/types"
 	"math/big"
 	"strings"
@@ -247,6 +248,11 @@ func scanExit(p *core.Prog, r *core.Result) {
 					if !ok || c == top {
 						continue
 					}
+					// the widest marker the ELEMENT TYPE can need (what the marker function returns for the type's
+					// extreme values): once it is reached no later element can ask for more
+					if m, ok := widestForElements(p, call, acc); ok && c == m {
+						continue
+					}
 					inLoop := (b2 == b || blockReach(b2, b)) && (b2 == b || blockReach(b, b2))
 					if !inLoop {
 						continue
@@ -351,4 +357,98 @@ func charRange(p *core.Prog, r *core.Result, sizes types.Sizes) {
 		}
 	}
 	r.Floor("ubjson_char_marker_sites", sites, 1)
+}
+
+// widestForElements: the scan folds maxNumType(acc, M(conv(v))) over elements v of an integer type T, M a marker
+// function of one integer parameter made of comparisons with constants. Evaluates M at T's extreme values.
+func widestForElements(p *core.Prog, call *ssa.Call, acc map[ssa.Value]bool) (int64, bool) {
+	sizes := sizesFor(p)
+	for _, a := range call.Common().Args {
+		if acc[a] {
+			continue
+		}
+		mc, ok := a.(*ssa.Call)
+		if !ok || mc.Common().StaticCallee() == nil || len(mc.Common().Args) == 0 {
+			continue
+		}
+		m := mc.Common().StaticCallee()
+		v := mc.Common().Args[len(mc.Common().Args)-1]
+		for {
+			cv, ok := v.(*ssa.Convert)
+			if !ok {
+				break
+			}
+			v = cv.X
+		}
+		rng, ok := typeRange(v.Type(), sizes)
+		if !ok || len(m.Params) == 0 {
+			continue
+		}
+		hi, ok1 := evalMarkerFn(m, rng.hi)
+		lo, ok2 := evalMarkerFn(m, rng.lo)
+		if !ok1 || !ok2 {
+			continue
+		}
+		if rng.lo.Sign() == 0 || lo == hi {
+			return hi, true
+		}
+	}
+	return 0, false
+}
+
+// evalMarkerFn runs a function of the shape `switch { case u <= C1: return M1; ... default: return Mn }` on one value.
+func evalMarkerFn(f *ssa.Function, val *big.Int) (int64, bool) {
+	if f.Blocks == nil {
+		return 0, false
+	}
+	prm := ssa.Value(f.Params[len(f.Params)-1])
+	b := f.Blocks[0]
+	for steps := 0; steps < 64; steps++ {
+		switch t := b.Instrs[len(b.Instrs)-1].(type) {
+		case *ssa.Return:
+			if len(t.Results) != 1 {
+				return 0, false
+			}
+			return constIntVal(t.Results[0])
+		case *ssa.Jump:
+			b = b.Succs[0]
+		case *ssa.If:
+			bo, ok := t.Cond.(*ssa.BinOp)
+			if !ok || bo.X != prm {
+				return 0, false
+			}
+			cv, ok := bo.Y.(*ssa.Const)
+			if !ok || cv.Value == nil {
+				return 0, false
+			}
+			c, ok := new(big.Int).SetString(cv.Value.ExactString(), 10)
+			if !ok {
+				return 0, false
+			}
+			cmp := val.Cmp(c)
+			var res bool
+			switch bo.Op {
+			case token.LEQ:
+				res = cmp <= 0
+			case token.LSS:
+				res = cmp < 0
+			case token.GEQ:
+				res = cmp >= 0
+			case token.GTR:
+				res = cmp > 0
+			case token.EQL:
+				res = cmp == 0
+			default:
+				return 0, false
+			}
+			if res {
+				b = b.Succs[0]
+			} else {
+				b = b.Succs[1]
+			}
+		default:
+			return 0, false
+		}
+	}
+	return 0, false
 }
